@@ -16,7 +16,9 @@ use serde_derive::{Deserialize, Serialize};
 pub struct Scn {
 	pub spec: FileSpec,
 	/// `Some(j)`: a second run in which the sink refuses (cleanly, nothing accepted) the first write of the j-th explicit
-	/// `finish_block` that has something to write, and is healthy again afterwards
+	/// `finish_block` that has something to write, and is healthy again afterwards. Values of 16 and above: j % 16 is that
+	/// index, and the sink refuses a SECOND time, (j / 16 - 1) sink calls after the first refusal's retry slot (0 = the
+	/// retry of the refused block itself): two faults in one history, each of which alone is handled correctly
 	#[serde(default)]
 	pub failed_finish: Option<u32>,
 }
@@ -41,7 +43,7 @@ impl Prop for C15 {
 		"A scenario is a writer history (<= 16 ops) over {serialize ok, serialize poisoned at serde call #n with kind Err | wrong type | missing field | duplicated field (any depth: nested out-of-order record, array element, after bytes were already appended), \
 		 push_serialized (real / reference pre-serialisation), finish_block} ended by into_inner | drop, x codec x approx_block_size (0, 1, tiny, exact datum-size boundaries +-1, large) x user metadata. \
 		 After EVERY API call that returned, the bytes accepted by the sink are snapshotted (= crash point) and judged by the reference container parser + reference datum decoder. \
-		 An evaluation is one snapshot judged. A case is non-trivial when the history holds a failing value or a flush; distinct = distinct (op kind, result, poison kind, nesting depth of the failure, objects pending in the open block, codec, approx_block_size class). One scenario in 250 is a big-blob workload (block sizes across the 8 / 32 / 64 KiB marks); one in four gets a SECOND run in which the sink refuses, cleanly, the first write of an explicit finish_block and is healthy afterwards: every later call that returns Ok is judged like any other. One scenario in 400 is a LONG history (Op::Many): up to 500 calls with every k-th value failing half-way and every j-th pushed pre-serialized, or 65 530-135 000 tiny values in one block; every call's return is still a crash point."
+		 An evaluation is one snapshot judged. A case is non-trivial when the history holds a failing value or a flush; distinct = distinct (op kind, result, poison kind, nesting depth of the failure, objects pending in the open block, codec, approx_block_size class). One scenario in 250 is a big-blob workload (block sizes across the 8 / 32 / 64 KiB marks); one in four gets a SECOND run in which the sink refuses, cleanly, the first write of an explicit finish_block and is healthy afterwards: every later call that returns Ok is judged like any other (in half of those runs the sink refuses a SECOND time, at the retry of the refused block or one to two flushes later). One scenario in 400 is a LONG history (Op::Many): up to 500 calls with every k-th value failing half-way and every j-th pushed pre-serialized, or 65 530-135 000 tiny values in one block; every call's return is still a crash point."
 	}
 	fn assumptions(&self) -> Vec<String> {
 		vec![
@@ -92,7 +94,7 @@ impl Prop for C15 {
 		}
 		Scn {
 			spec: container::gen_filespec(rng, &profile),
-			failed_finish: if rng.chance(1, 4) { Some(rng.below(3) as u32) } else { None },
+			failed_finish: if rng.chance(1, 4) { Some(rng.below(3) as u32 + if rng.bool() { 16 * (1 + rng.below(3) as u32) } else { 0 }) } else { None },
 		}
 	}
 
@@ -268,17 +270,73 @@ impl Prop for C15 {
 				.filter(|w| w[1].step.op < spec.ops.len() && matches!(spec.ops.get(w[1].step.op), Some(Op::FinishBlock)) && w[1].step.sink_calls > w[0].step.sink_calls)
 				.map(|w| w[0].step.sink_calls)
 				.collect();
+			// (a refusal that lands in Drop's own flush cannot be reported by Drop, which panics on purpose in debug
+			// builds — DESIGN §7.2: histories ended by drop get the first refusal only)
+			let second = if j >= 16 && spec.end != End::Drop { Some((j / 16 - 1) as u64) } else { None };
+			let j = j % 16;
 			if let Some(&at_call) = writing_finishes.get(j as usize % writing_finishes.len().max(1)) {
 				out.count("explicit_finish_block_meets_failing_sink", 1);
-				let sink = SimSink::all().with_faults(vec![crate::simio::SinkFault { at_call, kind: crate::simio::SinkFaultKind::Hard(crate::simio::IoErrKind::Other) }]);
+				let mut faults = vec![crate::simio::SinkFault { at_call, kind: crate::simio::SinkFaultKind::Hard(crate::simio::IoErrKind::Other) }];
+				if let Some(k) = second {
+					// (with an accept-everything sink every call after the header is the only write of a block flush: a refusal
+					// there is clean too)
+					out.count("sink_refuses_a_second_time", 1);
+					faults.push(crate::simio::SinkFault { at_call: at_call + 1 + k, kind: crate::simio::SinkFaultKind::Hard(crate::simio::IoErrKind::BrokenPipe) });
+				}
+				let n_faults = faults.len();
+				let sink = SimSink::all().with_faults(faults);
 				let sink2 = sink.clone();
 				let mut snaps2: Vec<Snap> = vec![];
 				let run2 = container::run_writer(spec, &sink, |st, model| {
 					snaps2.push(Snap { step: st.clone(), bytes: sink2.accepted(), model_len: model.len() });
 					true
 				});
-				let model2: &[Val] = &run2.model;
+				// what the file may hold: the values of every call that returned Ok, in order ("required"), plus — all or none —
+				// the values of a call that failed only because the sink refused a write ("optional": such a value was
+				// serialized into the block, and the block is written by a later call; the property speaks of calls that
+				// returned without error, not of what becomes of a value whose call reported the sink's failure)
+				let mut expected: Vec<(Val, bool)> = vec![];
+				let mut expected_len_after: Vec<usize> = vec![];
+				{
+					let mut before = 0usize;
+					for (si, st) in run2.steps.iter().enumerate() {
+						let after = run2.model_len_after[si];
+						for v in &run2.model[before..after] {
+							expected.push((v.clone(), true));
+						}
+						let op = if st.op == usize::MAX { None } else { spec.ops.get(st.op) };
+						// (the value in flight when the call failed: it failed on its own account — and was rolled back — only if
+						// the caller-side failure really fired during this call)
+						if st.res.is_err() && !st.poison_fired {
+							match op {
+								Some(Op::Serialize { val, .. }) => expected.push((val.clone(), false)),
+								Some(Op::SerializeAll { items }) => {
+									if let Some(it) = items.get(after - before) {
+										expected.push((it.0.clone(), false));
+									}
+								}
+								Some(Op::PushCrate { vals }) | Some(Op::PushRef { vals, .. }) => vals.iter().for_each(|v| expected.push((v.clone(), false))),
+								Some(Op::Blob { len, seed, compressible }) => expected.push((Val::Bytes(container::blob(*len, *seed, *compressible)), false)),
+								_ => {}
+							}
+						}
+						before = after;
+						expected_len_after.push(expected.len());
+					}
+				}
+				// `decoded` matches a prefix of `expected` in which optional entries may be left out; with `complete`,
+				// every required entry must have been matched
+				fn matches(decoded: &[Val], expected: &[(Val, bool)], complete: bool) -> bool {
+					match decoded.split_first() {
+						None => !complete || expected.iter().all(|e| !e.1),
+						Some((d, rest)) => match expected.split_first() {
+							None => false,
+							Some((e, erest)) => (e.0 == *d && matches(rest, erest, complete)) || (!e.1 && matches(decoded, erest, complete)),
+						},
+					}
+				}
 				let mut seen_failure = false;
+				let mut clean_failures = 0usize;
 				for (si, snap) in snaps2.iter().enumerate() {
 					out.evals += 1;
 					let st = &snap.step;
@@ -288,11 +346,12 @@ impl Prop for C15 {
 						out.fail(format!("C15:panic:after-failed-finish_block:{label}:{}", panic_site(p)), format!("step {si}: {p}"));
 						break;
 					}
-					let poisoned = matches!(op, Some(Op::Serialize { poison: Some(_), .. })) || matches!(op, Some(Op::SerializeAll { items }) if items.iter().any(|i| i.2.is_some()));
+					let poisoned = st.poison_fired;
 					if st.res.is_err() {
-						if !seen_failure && !poisoned {
-							// the refused write surfaces here (that it does is C16's business)
+						if clean_failures < n_faults && !poisoned {
+							// a refused write surfaces here (that it does is C16's business)
 							seen_failure = true;
+							clean_failures += 1;
 						} else if !poisoned {
 							out.fail(format!("C15:clean-op-failed:after-failed-finish_block:{label}:{codec}"), format!("step {si}: {:?}", st.res));
 							break;
@@ -307,12 +366,13 @@ impl Prop for C15 {
 							break;
 						}
 						Ok((count, decoded)) => {
-							if decoded.len() > snap.model_len || decoded[..] != model2[..decoded.len()] || count as usize != decoded.len() {
-								out.fail(format!("C15:snapshot-not-a-prefix:after-failed-finish_block:{label}:{codec}"), format!("step {si}: file holds {} values (counts say {count}), {} accepted", decoded.len(), snap.model_len));
+							let exp = &expected[..expected_len_after[si]];
+							if count as usize != decoded.len() || !matches(&decoded, exp, false) {
+								out.fail(format!("C15:snapshot-not-a-prefix:after-failed-finish_block:{label}:{codec}"), format!("step {si}: file holds {} values (counts say {count}), {} accepted so far (+ {} of calls that reported a refused write); file: {:?}; expected (value, required): {:?}", decoded.len(), snap.model_len, exp.iter().filter(|e| !e.1).count(), decoded, exp));
 								break;
 							}
 							let flushing = matches!(op, Some(Op::FinishBlock)) || st.op == spec.ops.len();
-							if flushing && decoded.len() != snap.model_len {
+							if flushing && !matches(&decoded, exp, true) {
 								out.fail(format!("C15:not-all-values-after-{label}:after-failed-finish_block:{codec}"), format!("step {si}: {} values accepted, file holds {}", snap.model_len, decoded.len()));
 								break;
 							}
